@@ -14,7 +14,7 @@ use proptest::prelude::*;
 use serde::{Deserialize, Serialize};
 use serde_json::json;
 
-const RULE: &str = "cases = (type, left value, right value, Some/None flags) with values given as index lists into a per-type table of boundary values (MIN, MIN+1, -1, 0, 1, MAX-1, MAX; false/true; '\\0','a',U+D7FF,U+E000,U+10FFFF) - scalars: all pairs, slices: all sequences of length <= 3 over three values, all pairs; oracle = PartialEq::eq / Ord::cmp on the same values for every eq_*/cmp_* function, const_eq!/const_cmp!, const_eq_for!/const_cmp_for! (all comparator forms), the Option variants in all 4 Some/None combinations, assertc_eq!/assertc_ne! (panic iff != / ==); plus order laws on konst's own results over all triples; non-trivial = slices of different length whose first difference favours the shorter one, Option mixes, or boundary scalars; distinct by the whole tuple";
+const RULE: &str = "cases = (type, left value, right value, Some/None flags) with values given as index lists into a per-type table of boundary values (MIN, MIN+1, -1, 0, 1, MAX-1, MAX; false/true; '\\0','a',U+D7FF,U+E000,U+10FFFF) - scalars: all pairs, slices: all sequences of length <= 3 over three values, all pairs; oracle = PartialEq::eq / Ord::cmp on the same values for every eq_*/cmp_* function, const_eq!/const_cmp!, coerce_to_cmp!(..).const_eq/const_cmp, try_equal! chains, const_eq_for!/const_cmp_for! (all comparator forms), the Option variants in all 4 Some/None combinations, assertc_eq!/assertc_ne! (panic iff != / ==); plus order laws on konst's own results over all triples; non-trivial = slices of different length whose first difference favours the shorter one, Option mixes, or boundary scalars; distinct by the whole tuple";
 
 #[derive(Serialize, Deserialize, Debug, Clone, Hash)]
 pub struct Case {
@@ -77,6 +77,17 @@ macro_rules! scalar_type {
                     ensure!(k == (a == b), "const_eq!({a:?},{b:?}) [{tn}] = {k}");
                     let k = const_cmp!(a, b);
                     ensure!(k == a.cmp(&b), "const_cmp!({a:?},{b:?}) [{tn}] = {k:?}");
+                    // the method form behind the macros, and try_equal! (early return unless Equal)
+                    let k = konst::coerce_to_cmp!(a).const_eq(&b);
+                    ensure!(k == (a == b), "coerce_to_cmp!({a:?}).const_eq(&{b:?}) [{tn}] = {k}");
+                    let k = konst::coerce_to_cmp!(a).const_cmp(&b);
+                    ensure!(k == a.cmp(&b), "coerce_to_cmp!({a:?}).const_cmp(&{b:?}) [{tn}] = {k:?}");
+                    let k = (|| -> Ordering {
+                        konst::try_equal!(const_cmp!(a, b));
+                        konst::try_equal!(const_cmp!(b, a));
+                        Ordering::Equal
+                    })();
+                    ensure!(k == a.cmp(&b).then(b.cmp(&a)), "try_equal!(const_cmp!({a:?},{b:?})) chain [{tn}] = {k:?}");
                     let p = catch(|| { assertc_eq!(a, b); }).is_err();
                     ensure!(p == (a != b), "assertc_eq!({a:?},{b:?}) panicked={p}");
                     let p = catch(|| { assertc_ne!(a, b); }).is_err();
@@ -109,6 +120,10 @@ macro_rules! scalar_type {
                     ensure!(k == weq, "const_eq!({a:?},{b:?}) [&[{tn}]] = {k}");
                     let k = const_cmp!(a, b);
                     ensure!(k == wcmp, "const_cmp!({a:?},{b:?}) [&[{tn}]] = {k:?}, Ord::cmp gives {wcmp:?}");
+                    let k = konst::coerce_to_cmp!(a).const_eq(&b);
+                    ensure!(k == weq, "coerce_to_cmp!({a:?}).const_eq(&{b:?}) [&[{tn}]] = {k}");
+                    let k = konst::coerce_to_cmp!(a).const_cmp(&b);
+                    ensure!(k == wcmp, "coerce_to_cmp!({a:?}).const_cmp(&{b:?}) [&[{tn}]] = {k:?}, Ord::cmp gives {wcmp:?}");
                     let k = const_eq_for!(slice; a, b);
                     ensure!(k == weq, "const_eq_for!(slice; {a:?},{b:?}) = {k}");
                     let k = const_eq_for!(slice; a, b, |x| *x);
